@@ -458,10 +458,8 @@ Inductive pkd :=
 | PSlhDsa (private : bool)
 | PMlDsaPriv
 | PJwtMlDsaPriv
-| PComposite (private : bool) (classical_private : bool) (point : bytes) (seed : option bytes)
-      (* composite ML-DSA: is the classical half a PRIVATE key object (also possible inside a public
-         composite key, see parse_composite); the point of a classical ECDSA key ([] otherwise); the
-         seed of a classical Ed25519 private key *)
+| PComposite (private : bool) (point : bytes) (seed : option bytes)
+      (* composite ML-DSA: the point of a classical ECDSA key ([] otherwise), the seed of a classical Ed25519 private key *)
 | PFallback (private : bool).
 
 Definition okb (c : bool) (d : pkd) : outcome pkd := if c then Ok d else Err.
@@ -1260,7 +1258,9 @@ Definition parse_key_base (kd : keydata) (prefix idreq : N) : outcome pkd :=
    the result only if it is an ML-DSA key (type assertion) resp. a classical
    key whose parameters equal the ones expected for the classical algorithm.
    A nested key of any other type therefore ends in an error whatever its own
-   parser says: the model refuses it without parsing. *)
+   parser says: the model refuses it without parsing.  (The public composite
+   key keeps all eight classical type URLs allowed: a private classical key is
+   parsed and then refused by NewPublicKey.) *)
 Definition sch_composite := Sch [(2, sch_keydata); (3, sch_keydata); (4, sch_scalar)] [].
 
 (* NewParameters: supportedParameterSets *)
@@ -1290,21 +1290,21 @@ Definition comp_pkcs1_ok (alg bits e hash : N) : bool :=
       || ((alg =? calg_rsa4096_pkcs1) && (bits =? comp_rsa_bits_b) && (hash =? h_sha384))).
 
 (* The composite key object made of an accepted classical key object.
-   NewPrivateKey needs a classical key that exposes PublicKey(): a private
-   key.  NewPublicKey only compares classicalKey.Parameters() with the expected
-   parameters - which the PRIVATE key of the same parameters satisfies too: a
-   public composite key accepts a classical private key in its
-   classical_public_key slot (reported as a finding; transcribed as coded). *)
+   NewPrivateKey needs a classical key that exposes PublicKey(): a private key.
+   NewPublicKey compares classicalKey.Parameters() with the expected parameters
+   and (/repo bcdec3e; before that fix a public composite key accepted - and
+   its serializer wrote out - a classical PRIVATE key, whose parameters are
+   the same) refuses a key that exposes PublicKey(). *)
 Definition composite_of_classical (private : bool) (alg : N) (d : pkd) : outcome pkd :=
   match d with
-  | PEd25519Pub => okb (negb private && (alg =? calg_ed25519)) (PComposite private false [] None)
-  | PEcdsaPub curve hash enc pt => okb (negb private && comp_ecdsa_ok alg curve hash enc) (PComposite private false pt None)
-  | PRsaPssPub bits e hash salt => okb (negb private && comp_pss_ok alg bits e hash salt) (PComposite private false [] None)
-  | PRsaPkcs1Pub bits e hash => okb (negb private && comp_pkcs1_ok alg bits e hash) (PComposite private false [] None)
-  | PEd25519Priv seed => okb (alg =? calg_ed25519) (PComposite private true [] (Some seed))
-  | PEcdsaPriv curve hash enc pt _ => okb (comp_ecdsa_ok alg curve hash enc) (PComposite private true pt None)
-  | PRsaPriv true bits e hash salt => okb (comp_pss_ok alg bits e hash salt) (PComposite private true [] None)
-  | PRsaPriv false bits e hash _ => okb (comp_pkcs1_ok alg bits e hash) (PComposite private true [] None)
+  | PEd25519Pub => okb (negb private && (alg =? calg_ed25519)) (PComposite private [] None)
+  | PEcdsaPub curve hash enc pt => okb (negb private && comp_ecdsa_ok alg curve hash enc) (PComposite private pt None)
+  | PRsaPssPub bits e hash salt => okb (negb private && comp_pss_ok alg bits e hash salt) (PComposite private [] None)
+  | PRsaPkcs1Pub bits e hash => okb (negb private && comp_pkcs1_ok alg bits e hash) (PComposite private [] None)
+  | PEd25519Priv seed => okb (private && (alg =? calg_ed25519)) (PComposite private [] (Some seed))
+  | PEcdsaPriv curve hash enc pt _ => okb (private && comp_ecdsa_ok alg curve hash enc) (PComposite private pt None)
+  | PRsaPriv true bits e hash salt => okb (private && comp_pss_ok alg bits e hash salt) (PComposite private [] None)
+  | PRsaPriv false bits e hash _ => okb (private && comp_pkcs1_ok alg bits e hash) (PComposite private [] None)
   | _ => Err
   end.
 
@@ -1423,8 +1423,7 @@ Definition prim_ok (d : pkd) : outcome bool :=
   | PSlhDsa _ => Ok true
   | PMlDsaPriv => Ok true            (* mldsa.NewSigner: the expanded key of the seed *)
   | PJwtMlDsaPriv => Ok true         (* createJWTMLDSASigner: mldsa.NewPrivateKey(seed) + NewSigner *)
-  | PComposite false true _ _ => Ok false     (* newClassicalVerifier: a private key object is no public key type *)
-  | PComposite _ _ pt seed =>
+  | PComposite _ pt seed =>
       (* compositemldsa.NewVerifier / NewSigner: the ML-DSA half, then newClassicalVerifier /
          newClassicalSigner = the constructor of the classical key (its parameters are fixed by
          the composite algorithm: RSA 3072/4096 with e = 65537, the ECDSA point, the Ed25519 seed) *)
@@ -1443,9 +1442,9 @@ Definition more_material (d : pkd) : N :=
   | PEd25519Pub => km_public
   | PEd25519Priv _ | PRsaPriv _ _ _ _ _ | PEcies true _ _ _ | PHpke true _
   | PJwtEcdsa true _ _ | PSlhDsa true | PJwtRsaPriv _ _ _ _ _ _ _ _ | PMlDsaPriv | PJwtMlDsaPriv
-  | PComposite true _ _ _ => km_private
+  | PComposite true _ _ => km_private
   | PEcies false _ _ _ | PHpke false _ | PJwtEcdsa false _ _ | PJwtRsaPub _ _ _ | PMlDsaPub | PSlhDsa false
-  | PJwtMlDsaPub | PComposite false _ _ _ => km_public      (* what the serializer writes, whatever the classical half is *)
+  | PJwtMlDsaPub | PComposite false _ _ => km_public
   | PStreamGcmHkdf _ _ _ | PStreamCtrHmac _ _ _ _ _ | PJwtHmac _ _ => km_symmetric
   | _ => km_unknown
   end.
